@@ -157,6 +157,17 @@ form("module:global-statements", "import sys\n\nif sys.platform == 'linux':\n   
 form("module:named-like-its-package", {"same@/__init__.py": "", "same@/same@.py": "def bar@(a: int) -> int:\n    \"\"\"Doc.\"\"\"\n    return a\n"})
 form("module:function-named-like-module", {"fn@.py": "def fn@(a: int) -> int:\n    \"\"\"Doc.\"\"\"\n    return a\n"})
 form("class:nested-class-named-like-outer", "class A@:\n    \"\"\"Outer.\"\"\"\n\n    class A@:\n        \"\"\"Inner.\"\"\"\n\n        def m(self, a: int) -> int:\n            \"\"\"Doc.\"\"\"\n            return a\n")
+form("annot:recursive-type-alias", "from typing import Union\n\nJson@ = Union[dict[str, \"Json@\"], list[\"Json@\"], str, int, None]\n\n\ndef dumps@(x: Json@) -> str:\n    return \"\"\n\n\nclass K@:\n    a: Json@ = None\n")
+form("annot:plain-type-aliases", "from typing import Optional, Union\n\nIntList@ = list[int]\nMaybe@ = Optional[IntList@]\nNested@ = Union[Maybe@, dict[str, IntList@]]\n\n\ndef f@(a: IntList@, b: Maybe@, c: Nested@) -> Nested@:\n    return c\n")
+form("class:base-from-unresolvable-module", "import missing_lib@  # type: ignore[import-not-found]\n\n\nclass A@(missing_lib@.Base):\n    def f(self) -> int:\n        return 1\n")
+form("module:qualified-access-to-package-variable", {"va@.py": "X@: int | None = None\nPAIR@ = (1, 2)\n", "vb@.py": "from . import va@\n\nY@ = va@.X@\nZ@ = va@.PAIR@\n\n\ndef f@() -> int:\n    return 1\n"})
+form("module:unreachable-after-platform-guard", "import sys\n\nif sys.platform == \"win32\":\n    import winreg\nelse:\n    raise ImportError(\"Windows only\")\n\n\ndef f@(x):\n    return 1\n")
+form("return:annotated-self-typevar", "from typing import Self, TypeVar\n\nT@ = TypeVar(\"T@\", bound=\"A@\")\n\n\nclass A@:\n    def clone(self: T@):\n        return self\n\n    def s3(self: Self):\n        return self\n")
+form("return:name-from-unresolved-star-import", "from missing_lib@ import *  # type: ignore[import-not-found]\n\n\ndef f@():\n    return SOMETHING  # type: ignore[name-defined]  # noqa: F405\n")
+form("class:internal-base-with-same-name-in-suffix-module", {"sb@.py": "class _Base:\n    def m(self) -> int:\n        return 1\n\n\n_inst@ = _Base()\n", "xsb@.py": "from .sb@ import _Base as _B\n\n\nclass _Base(_B):\n    def n(self) -> int:\n        return 1\n\n\nclass Pub@(_Base):\n    pass\n"})
+form("class:enum-starred-and-nested-targets", "from enum import Enum\n\n\nclass E@(Enum):\n    A, *REST = range(3)\n\n\nclass F@(Enum):\n    (A, B), C = (1, 2), 3\n")
+form("class:attribute-declared-in-if-assigned-later", "import sys\nfrom typing import List\n\n\nclass A@:\n    if sys.version_info >= (3, 9):\n        cache: list[int]\n    else:\n        cache: List[int]\n    cache = []\n")
+form("module:name-defined-twice", "class A@:\n    def f(self) -> int:\n        \"\"\"Doc f.\"\"\"\n        return 1\n\n\nclass A@:  # type: ignore[no-redef]\n    def g(self) -> int:\n        \"\"\"Doc g.\"\"\"\n        return 1\n\n\nclass names@:\n    pass\n\n\ndef names@() -> int:  # type: ignore[no-redef]\n    \"\"\"Doc.\"\"\"\n    return 1\n")
 form("module:non-ascii", "def grüße@(wert: int = 1) -> int:\n    '''Grüße – naïve café.'''\n    return wert\n\n\nclass Größe@:\n    π: float = 3.14\n")
 
 
